@@ -100,6 +100,14 @@ QByteArray SocketPrivate::statusReason(int statusCode) const
 
 void SocketPrivate::onReadyRead()
 {
+    // Once the request has been read in full (or the socket was closed),
+    // anything else the client sends is discarded - but data that arrived
+    // earlier and has not been read yet must stay available
+    if (readState == ReadFinished) {
+        socket->readAll();
+        return;
+    }
+
     // Append all of the new data to the read buffer
     readBuffer.append(socket->readAll());
 
